@@ -1,0 +1,199 @@
+//go:build verif
+
+// Contracts (machine-checked by /verif/engine, see /verif/DESIGN.md). Comment-only file.
+package util
+
+// ---- C03: primitive field codecs, byte level -----------------------------------------------------------------
+// rd.@rdata is the byte sequence the reader delivers, rd.@rpos the read position; rem(rd) bytes are left.
+// wr.@wdata[0 .. wr.@wlen) is what the writer has accepted.
+//@ spec pred rwf(rd io.Reader) = rd.@rpos >= 0 && rd.@rpos <= len(rd.@rdata)
+//@ spec fn rem(rd io.Reader) int = len(rd.@rdata) - rd.@rpos
+
+// -- fixed width, big endian ------------------------------------------------------------------------------------
+//@ func ReadUint16
+//@   props C03
+//@   requires rwf(reader)
+//@   ensures [truncation-is-an-error] (err == nil) == (old(rem(reader)) >= 2)
+//@   ensures [big-endian-value] err == nil ==> val == be(reader.@rdata[old(reader.@rpos):], 2) && reader.@rpos == old(reader.@rpos) + 2
+//@   ensures [wf] rwf(reader)
+//@ func ReadUint32
+//@   props C03
+//@   requires rwf(reader)
+//@   ensures [truncation-is-an-error] (err == nil) == (old(rem(reader)) >= 4)
+//@   ensures [big-endian-value] err == nil ==> val == be(reader.@rdata[old(reader.@rpos):], 4) && reader.@rpos == old(reader.@rpos) + 4
+//@   ensures [wf] rwf(reader)
+//@ func ReadUint64
+//@   props C03
+//@   requires rwf(reader)
+//@   ensures [truncation-is-an-error] (err == nil) == (old(rem(reader)) >= 8)
+//@   ensures [big-endian-value] err == nil ==> val == be(reader.@rdata[old(reader.@rpos):], 8) && reader.@rpos == old(reader.@rpos) + 8
+//@   ensures [wf] rwf(reader)
+//@ func ReadUint8
+//@   props C03
+//@   requires rwf(reader)
+//@   ensures [truncation-is-an-error] (err == nil) == (old(rem(reader)) >= 1)
+//@   ensures [value] err == nil ==> val == reader.@rdata[old(reader.@rpos)] && reader.@rpos == old(reader.@rpos) + 1
+//@   ensures [wf] rwf(reader)
+
+//@ func WriteUint16
+//@   props C03
+//@   ensures [two-bytes-big-endian] err == nil ==> writer.@wlen == old(writer.@wlen) + 2 && be(writer.@wdata[old(writer.@wlen):], 2) == val
+//@   ensures [earlier-output-kept] forall j int :: j < old(writer.@wlen) ==> writer.@wdata[j] == old(writer.@wdata)[j]
+//@ func WriteUint32
+//@   props C03
+//@   ensures [four-bytes-big-endian] err == nil ==> writer.@wlen == old(writer.@wlen) + 4 && be(writer.@wdata[old(writer.@wlen):], 4) == val
+//@   ensures [earlier-output-kept] forall j int :: j < old(writer.@wlen) ==> writer.@wdata[j] == old(writer.@wdata)[j]
+//@ func WriteUint64
+//@   props C03
+//@   ensures [eight-bytes-big-endian] err == nil ==> writer.@wlen == old(writer.@wlen) + 8 && be(writer.@wdata[old(writer.@wlen):], 8) == val
+//@   ensures [earlier-output-kept] forall j int :: j < old(writer.@wlen) ==> writer.@wdata[j] == old(writer.@wdata)[j]
+
+// -- VarInt (LEB128 over the low 32 bits, 1..5 bytes) -----------------------------------------------------------
+// vlen(d): index+1 of the first of the first five bytes whose continuation bit is clear, 6 if all five have it set.
+// vval(d): the 7-bit groups of those bytes, least significant group first.
+//@ spec fn vlen(d bytes) int = ite(d[0] & 0x80 == 0, 1, ite(d[1] & 0x80 == 0, 2, ite(d[2] & 0x80 == 0, 3, ite(d[3] & 0x80 == 0, 4, ite(d[4] & 0x80 == 0, 5, 6)))))
+//@ spec fn vval(d bytes) uint32 = uint32(d[0] & 0x7f) | ite(vlen(d) >= 2, uint32(d[1] & 0x7f) << 7, 0) | ite(vlen(d) >= 3, uint32(d[2] & 0x7f) << 14, 0) | ite(vlen(d) >= 4, uint32(d[3] & 0x7f) << 21, 0) | ite(vlen(d) >= 5, uint32(d[4] & 0x7f) << 28, 0)
+// complete: the stream holds a whole VarInt of at most 5 bytes at the read position.
+//@ spec pred vcomplete(rd io.Reader) = vlen(rd.@rdata[rd.@rpos:]) <= 5 && vlen(rd.@rdata[rd.@rpos:]) <= rem(rd)
+
+//@ func ReadVarIntReturnN
+//@   props C03
+//@   requires rwf(r)
+//@   loop 1: unroll 6
+//@   loop 2: unroll 6
+//@   ensures [truncated-or-overlong-is-an-error] (err == nil) == old(vcomplete(r))
+//@   ensures [value-and-length] err == nil ==> result == int(int32(old(vval(r.@rdata[r.@rpos:])))) && n == old(vlen(r.@rdata[r.@rpos:])) && r.@rpos == old(r.@rpos) + n
+//@   ensures [wf] rwf(r)
+//@ func ReadVarInt
+//@   props C03
+//@   requires rwf(r)
+//@   ensures [truncated-or-overlong-is-an-error] (err == nil) == old(vcomplete(r))
+//@   ensures [value] err == nil ==> result == int(int32(old(vval(r.@rdata[r.@rpos:])))) && r.@rpos == old(r.@rpos) + old(vlen(r.@rdata[r.@rpos:]))
+//@   ensures [wf] rwf(r)
+
+// Writing: exactly vlen bytes are appended, they form a complete VarInt and decode to the low 32 bits of val.
+//@ func WriteUint8N
+//@   props C03
+//@   ensures [one-byte] err == nil ==> n == 1 && writer.@wlen == old(writer.@wlen) + 1 && same(writer.@wdata, upd(old(writer.@wdata), old(writer.@wlen), val))
+//@   ensures [failed-write-touches-nothing-earlier] err != nil ==> same(writer.@wdata, old(writer.@wdata)) || same(writer.@wdata, upd(old(writer.@wdata), old(writer.@wlen), val))
+//@   ensures [monotone] writer.@wlen >= old(writer.@wlen)
+//@ func WriteVarIntN
+//@   props C03
+//@   loop 1: unroll 5
+//@   splitpaths
+//@   ensures [minimal-varint-of-low-32-bits] err == nil ==> n == writer.@wlen - old(writer.@wlen) && n >= 1 && n <= 5 && vlen(writer.@wdata[old(writer.@wlen):]) == n && vval(writer.@wdata[old(writer.@wlen):]) == uint32(val)
+//@   ensures [earlier-output-kept] forall j int :: j < old(writer.@wlen) ==> writer.@wdata[j] == old(writer.@wdata)[j]
+
+// -- booleans, strings, byte arrays ------------------------------------------------------------------------------
+//@ func ReadBool
+//@   props C03
+//@   requires rwf(reader)
+//@   ensures [wf] rwf(reader)
+//@   ensures [truncation-is-an-error] (err == nil) == (old(rem(reader)) >= 1)
+//@   ensures [nonzero-is-true] err == nil ==> val == (reader.@rdata[old(reader.@rpos)] != 0) && reader.@rpos == old(reader.@rpos) + 1
+
+// Length guards come BEFORE the allocation: negative and oversized lengths are rejected, the allocation is exactly `length`.
+//@ func ReadString
+//@   props C03
+//@   requires rwf(rd)
+//@   ensures [wf] rwf(rd)
+//@ func ReadStringMax
+//@   props C03
+//@   requires rwf(rd) && max >= 0 && max <= 0x10000000
+//@   at-call ReadVarInt as l
+//@   at-call readStringMax as body: assert res(l, 1) == nil && arg0 == rd && arg1 == max && arg2 == res(l, 0)
+//@   ensures [length-prefix-then-body] called(l) && (res(l, 1) != nil ==> result.1 != nil && !called(body))
+//@   ensures [wf] rwf(rd)
+//@ func readStringMax
+//@   props C03
+//@   requires rwf(rd) && max >= 0 && max <= 0x10000000
+//@   at-call ReadFull as fill: assert [guards-before-allocation] length >= 0 && length <= max * 4 && len(arg1) == length
+//@   ensures [negative-or-oversized-rejected] (length < 0 || length > max * 4) ==> result.1 != nil && !called(fill)
+//@   ensures [truncation-is-an-error] length >= 0 && length <= max * 4 ==> ((result.1 == nil) == (old(rem(rd)) >= length))
+//@   ensures [wf] rwf(rd)
+//@   ensures [exact-bytes] result.1 == nil ==> len(result.0) == length && rd.@rpos == old(rd.@rpos) + length && (forall i int :: 0 <= i && i < length ==> result.0[i] == rd.@rdata[old(rd.@rpos) + i])
+//@ func ReadBytesLen
+//@   props C03
+//@   requires rwf(rd)
+//@   at-call ReadVarInt as l
+//@   at-call ReadFull as fill: assert [guards-before-allocation] res(l, 1) == nil && res(l, 0) >= 0 && res(l, 0) <= maxLength && len(arg1) == res(l, 0)
+//@   ensures [negative-or-oversized-rejected] called(l) && (res(l, 1) != nil || res(l, 0) < 0 || res(l, 0) > maxLength) ==> err != nil && !called(fill)
+//@   ensures [truncated-body-is-an-error] called(fill) ==> err == res(fill, 1)
+//@ func ReadUTF
+//@   props C03
+//@   requires rwf(rd)
+//@   at-call ReadUint16 as l
+//@   at-call ReadFull as fill: assert res(l, 1) == nil && len(arg1) == int(res(l, 0))
+//@   ensures [truncated-is-an-error] called(l) && res(l, 1) != nil ==> result.1 != nil
+//@   ensures [truncated-body-is-an-error] called(fill) ==> result.1 == res(fill, 1)
+//@ func WriteUTF
+//@   props C03
+//@   at-call WriteUint16 as l: assert arg1 == uint16(len(s))
+//@   at-call Write as body: assert called(l) && res(l) == nil && streq(bytes(arg1), s)
+//@ func WriteBytes
+//@   props C03
+//@   at-call WriteVarInt as l: assert arg0 == wr && arg1 == len(b)
+//@   at-call Write as body: assert called(l) && res(l) == nil && arg0 == wr && arg1 == b
+//@   ensures [length-then-bytes] err == nil ==> called(l) && called(body)
+
+// -- Minecraft 1.7 extended short: 16-bit short, top bit flags a third byte holding bits 15..22 -------------------
+//@ func ReadExtendedForgeShort
+//@   props C03
+//@   requires rwf(rd)
+//@   at-call ReadUint16 as low
+//@   at-call ReadUint8 as high: assert [third-byte-only-if-flagged] res(low, 1) == nil && (res(low, 0) & 0x8000) != 0
+//@   ensures [truncation-is-an-error] called(low) && res(low, 1) != nil ==> result.1 != nil
+//@   ensures [two-byte-form] called(low) && res(low, 1) == nil && (res(low, 0) & 0x8000) == 0 ==> result.1 == nil && result.0 == int(res(low, 0)) && !called(high)
+//@   ensures [three-byte-form] called(high) && res(high, 1) == nil ==> result.1 == nil && result.0 == (int(res(high, 0)) << 15 | int(res(low, 0) & 0x7fff))
+//@   ensures [truncated-third-byte-is-an-error] called(high) && res(high, 1) != nil ==> result.1 != nil
+//@   ensures [range] result.1 == nil ==> result.0 >= 0 && result.0 <= 0x7fffff
+//@   ensures [wf] rwf(rd)
+//@ func WriteExtendedForgeShort
+//@   props C03
+//@   at-call WriteUint16 as low: assert [short-with-continuation-flag] arg1 == uint16(toWrite & 0x7fff) | ite((toWrite & 0x7f8000) != 0, 0x8000, 0)
+//@   at-call Write as high: assert [third-byte-iff-needed] called(low) && res(low) == nil && (toWrite & 0x7f8000) != 0 && len(arg1) == 1 && arg1[0] == byte((toWrite & 0x7f8000) >> 15)
+//@   ensures [third-byte-iff-needed] called(low) && (res(low) == nil && (toWrite & 0x7f8000) != 0 ==> called(high))
+//@ func ReadBytes17
+//@   props C03
+//@   requires rwf(rd)
+//@   at-call ReadExtendedForgeShort as l
+//@   at-call ReadFull as fill: assert [guards-before-allocation] res(l, 1) == nil && res(l, 0) <= ForgeMaxArrayLength && len(arg1) == res(l, 0)
+//@   ensures [oversized-rejected] called(l) && res(l, 1) == nil && res(l, 0) > ForgeMaxArrayLength ==> result.1 != nil && !called(fill)
+//@   ensures [truncated-body-is-an-error] called(fill) ==> result.1 == res(fill, 1)
+//@ func WriteBytes17
+//@   props C03
+//@   at-call WriteExtendedForgeShort as l: assert arg1 == len(b) && len(b) <= ite(allowExtended, ForgeMaxArrayLength, 32767)
+//@   at-call Write as body: assert called(l) && res(l) == nil && arg1 == b
+
+// -- UUID: 16 bytes, most significant first ------------------------------------------------------------------------
+//@ func ReadUUID
+//@   props C03
+//@   requires rwf(rd)
+//@   at-call ReadFull as fill: assert len(arg1) == 16
+//@   at-call FromBytes as conv: assert res(fill, 1) == nil && ref(arg0) == ref(arg(fill, 1)) && len(arg0) == 16
+//@   ensures [truncation-is-an-error] called(fill) && res(fill, 1) != nil ==> err != nil
+//@ func WriteUUID
+//@   props C03
+//@   at-call WriteUint64#1 as hi: assert arg1 == be(uuid, 8)
+//@   at-call WriteUint64#2 as lo: assert called(hi) && res(hi) == nil && arg1 == be(uuid, 8, 8)
+
+// -- arrays: the count is checked before it is used for allocation ------------------------------------------------
+//@ func ReadProperties
+//@   props C03 C05
+//@   requires rwf(rd)
+//@   loop 1: invariant rwf(rd)
+//@   at-call ReadVarInt#1 as count
+//@   at-call ReadString#1 as first: assert [negative-count-rejected] res(count, 1) == nil && res(count, 0) >= 0
+//@   ensures [negative-count-rejected] called(count) && res(count, 1) == nil && res(count, 0) < 0 ==> err != nil
+//@ func ReadStringArray
+//@   props C03 C05
+//@   requires rwf(rd)
+//@   loop 1: invariant rwf(rd)
+//@   at-call ReadVarInt as count
+//@   at-call ReadString as item: assert [negative-count-rejected] res(count, 1) == nil && res(count, 0) >= 0
+//@ func ReadVarIntArray
+//@   props C03 C05
+//@   requires rwf(rd)
+//@   loop 1: invariant rwf(rd)
+//@   at-call ReadVarInt#1 as count
+//@   at-call ReadVarInt#2 as item: assert [negative-count-rejected] res(count, 1) == nil && res(count, 0) >= 0
